@@ -663,6 +663,189 @@ func createFacts(f *ast.File, consts map[string]int64) string {
 	return "[" + strings.Join(rows, ", ") + "]"
 }
 
+// ---------------------------------------------------------------- interpreted comparator closures
+
+// closureOf finds `c := func(o1, o2 *XKeyVal) bool { … }` in a method body.
+func closureOf(fd *ast.FuncDecl) *ast.FuncLit {
+	var lit *ast.FuncLit
+	if fd == nil {
+		return nil
+	}
+	ast.Inspect(fd.Body, func(n ast.Node) bool {
+		if f, ok := n.(*ast.FuncLit); ok && lit == nil {
+			lit = f
+			return false
+		}
+		return true
+	})
+	return lit
+}
+
+// closureLean compiles the comparator closure of Sorting / SortingAnyList.
+//   o1.value, o2.value → v1, v2     o1.key, o2.key → k1, k2     asc → asc
+//   compare.F(a, b) → (cmp a b)  (F is recorded)     CompareChild(child, childAsc, a, b) → (cc a b)
+func closureLean(fd *ast.FuncDecl, cmpName *string) string {
+	lit := closureOf(fd)
+	if lit == nil || len(lit.Type.Params.List) == 0 {
+		return unknown("comparator closure")
+	}
+	var ps []string
+	for _, p := range lit.Type.Params.List {
+		for _, n := range p.Names {
+			ps = append(ps, n.Name)
+		}
+	}
+	if len(ps) != 2 {
+		return unknown("comparator closure parameters")
+	}
+	mps := paramNames(fd) // Sorting(asc) / SortingAnyList(asc, child, childAsc)
+	c := &cc{}
+	c.leaf = func(e ast.Expr) (string, bool) {
+		switch x := e.(type) {
+		case *ast.Ident:
+			if len(mps) > 0 && x.Name == mps[0] {
+				return "asc", true
+			}
+		case *ast.SelectorExpr:
+			if id, ok := x.X.(*ast.Ident); ok {
+				for i, p := range ps {
+					if id.Name == p {
+						switch x.Sel.Name {
+						case "value":
+							return "v" + strconv.Itoa(i+1), true
+						case "key":
+							return "k" + strconv.Itoa(i+1), true
+						}
+					}
+				}
+			}
+		case *ast.CallExpr:
+			if s, ok := x.Fun.(*ast.SelectorExpr); ok && len(x.Args) == 2 {
+				if id, ok := s.X.(*ast.Ident); ok && id.Name == "compare" {
+					if *cmpName == "" {
+						*cmpName = s.Sel.Name
+					} else if *cmpName != s.Sel.Name {
+						return unknown("two different compare functions in one closure"), true
+					}
+					return "(cmp " + c.atom(x.Args[0]) + " " + c.atom(x.Args[1]) + ")", true
+				}
+			}
+			if id, ok := x.Fun.(*ast.Ident); ok && id.Name == "CompareChild" && len(x.Args) == 4 && len(mps) == 3 {
+				a0, ok0 := x.Args[0].(*ast.Ident)
+				a1, ok1 := x.Args[1].(*ast.Ident)
+				if ok0 && ok1 && a0.Name == mps[1] && a1.Name == mps[2] {
+					return "(cc " + c.atom(x.Args[2]) + " " + c.atom(x.Args[3]) + ")", true
+				}
+				return unknown("CompareChild called with other arguments than (child, childAsc, …)"), true
+			}
+		}
+		return "", false
+	}
+	return c.block(lit.Body.List)
+}
+
+// compareFnLean compiles compare.CompareToX:  l == r → (eq l r),  l > r → (gt l r),  l < r → (gt r l)
+func compareFnLean(fd *ast.FuncDecl) string {
+	ps := paramNames(fd)
+	if len(ps) != 2 {
+		return unknown("compare function parameters")
+	}
+	c := &cc{}
+	c.leaf = func(e ast.Expr) (string, bool) {
+		switch x := e.(type) {
+		case *ast.Ident:
+			if x.Name == ps[0] {
+				return "l", true
+			}
+			if x.Name == ps[1] {
+				return "r", true
+			}
+		case *ast.BinaryExpr:
+			a, ok1 := x.X.(*ast.Ident)
+			b, ok2 := x.Y.(*ast.Ident)
+			if ok1 && ok2 {
+				n := func(s string) string {
+					if s == ps[0] {
+						return "l"
+					}
+					return "r"
+				}
+				switch x.Op {
+				case token.EQL:
+					return "(eq " + n(a.Name) + " " + n(b.Name) + ")", true
+				case token.GTR:
+					return "(gt " + n(a.Name) + " " + n(b.Name) + ")", true
+				case token.LSS:
+					return "(gt " + n(b.Name) + " " + n(a.Name) + ")", true
+				}
+			}
+		}
+		return "", false
+	}
+	return c.block(fd.Body.List)
+}
+
+// compareChildLean compiles CompareChild:
+//   child.GetType() → ty     ord → ord     compare.F(child.G(a), child.G(b)) → (c "F" "G" a b)
+func compareChildLean(f *ast.File, consts map[string]int64) string {
+	var fd *ast.FuncDecl
+	for _, d := range f.Decls {
+		if x, ok := d.(*ast.FuncDecl); ok && x.Name.Name == "CompareChild" {
+			fd = x
+		}
+	}
+	if fd == nil {
+		return unknown("CompareChild")
+	}
+	ps := paramNames(fd)
+	if len(ps) != 4 {
+		return unknown("CompareChild parameters")
+	}
+	c := &cc{}
+	c.leaf = func(e ast.Expr) (string, bool) {
+		switch x := e.(type) {
+		case *ast.Ident:
+			switch x.Name {
+			case ps[1]:
+				return "ord", true
+			case ps[2]:
+				return "i1", true
+			case ps[3]:
+				return "i2", true
+			}
+			if v, ok := consts[x.Name]; ok {
+				return strconv.FormatInt(v, 10), true
+			}
+		case *ast.CallExpr:
+			if s, ok := x.Fun.(*ast.SelectorExpr); ok {
+				if id, ok := s.X.(*ast.Ident); ok {
+					if id.Name == ps[0] && s.Sel.Name == "GetType" && len(x.Args) == 0 {
+						return "ty", true
+					}
+					if id.Name == "compare" && len(x.Args) == 2 {
+						a, ok1 := x.Args[0].(*ast.CallExpr)
+						b, ok2 := x.Args[1].(*ast.CallExpr)
+						if ok1 && ok2 && len(a.Args) == 1 && len(b.Args) == 1 {
+							as, ok3 := a.Fun.(*ast.SelectorExpr)
+							bs, ok4 := b.Fun.(*ast.SelectorExpr)
+							if ok3 && ok4 && as.Sel.Name == bs.Sel.Name {
+								ar, ok5 := as.X.(*ast.Ident)
+								br, ok6 := bs.X.(*ast.Ident)
+								if ok5 && ok6 && ar.Name == ps[0] && br.Name == ps[0] {
+									return fmt.Sprintf("(c %q %q %s %s)", s.Sel.Name, as.Sel.Name, c.atom(a.Args[0]), c.atom(b.Args[0])), true
+								}
+							}
+						}
+						return unknown("compare call in CompareChild"), true
+					}
+				}
+			}
+		}
+		return "", false
+	}
+	return c.block(fd.Body.List)
+}
+
 func main() {
 	repo := flag.String("repo", "/repo", "repository root")
 	out := flag.String("out", "", "output Lean file")
@@ -700,9 +883,49 @@ func main() {
 		fmt.Fprintf(&sb, "def %s.addAllBound : String := %q\n", T, addAllBound(ms["AddAll"]))
 		w, r := callsOn(ms["Write"]), callsOn(ms["Read"])
 		fmt.Fprintf(&sb, "def %s.wire : List String := %s\n", T, leanStrs(append(append([]string{}, w...), r...)))
-		fmt.Fprintf(&sb, "def %s.typeCode : Nat := %s\n\n", T, typeCode(ms["GetType"], consts))
+		fmt.Fprintf(&sb, "def %s.typeCode : Nat := %s\n", T, typeCode(ms["GetType"], consts))
+		cmp1, cmp2 := "", ""
+		fmt.Fprintf(&sb, "def %s.sortingLess {α : Type} (cmp : α → α → Int) (asc : Bool) (v1 v2 : α) : Bool :=\n  %s\n", T, closureLean(ms["Sorting"], &cmp1))
+		fmt.Fprintf(&sb, "def %s.sortingAnyLess {α : Type} (cmp : α → α → Int) (asc : Bool) (cc : Nat → Nat → Int) (k1 : Nat) (v1 : α) (k2 : Nat) (v2 : α) : Bool :=\n  %s\n", T, closureLean(ms["SortingAnyList"], &cmp2))
+		fmt.Fprintf(&sb, "def %s.compareFns : List String := %s\n\n", T, leanStrs([]string{cmp1, cmp2}))
 	}
 	fmt.Fprintf(&sb, "def compareChild : List (List String × String × String) := %s\n", compareChildFacts(anyF, consts))
+	fmt.Fprintf(&sb, "def compareChildF (ty : Nat) (ord : Bool) (c : String → String → Nat → Nat → Int) (i1 i2 : Nat) : Int :=\n  %s\n", compareChildLean(anyF, consts))
+	cf := parse(filepath.Join(*repo, "util", "compare", "CompareUtil.go"))
+	for _, name := range []string{"CompareToInt", "CompareToLong", "CompareToFloat", "CompareToDouble"} {
+		var fd *ast.FuncDecl
+		for _, d := range cf.Decls {
+			if x, ok := d.(*ast.FuncDecl); ok && x.Name.Name == name && x.Recv == nil {
+				fd = x
+			}
+		}
+		body := unknown("compare." + name)
+		if fd != nil {
+			body = compareFnLean(fd)
+		}
+		fmt.Fprintf(&sb, "def %s {α : Type} (eq gt : α → α → Bool) (l r : α) : Int :=\n  %s\n", name, body)
+	}
+	{
+		// CompareToString must be `return strings.Compare(l, r)`
+		isSC := false
+		for _, d := range cf.Decls {
+			if x, ok := d.(*ast.FuncDecl); ok && x.Name.Name == "CompareToString" && x.Recv == nil && len(x.Body.List) == 1 {
+				if r, ok := x.Body.List[0].(*ast.ReturnStmt); ok && len(r.Results) == 1 {
+					if call, ok := r.Results[0].(*ast.CallExpr); ok && len(call.Args) == 2 {
+						if s, ok := call.Fun.(*ast.SelectorExpr); ok && s.Sel.Name == "Compare" {
+							if id, ok := s.X.(*ast.Ident); ok && id.Name == "strings" {
+								ps := paramNames(x)
+								a, ok1 := call.Args[0].(*ast.Ident)
+								b, ok2 := call.Args[1].(*ast.Ident)
+								isSC = ok1 && ok2 && len(ps) == 2 && a.Name == ps[0] && b.Name == ps[1]
+							}
+						}
+					}
+				}
+			}
+		}
+		fmt.Fprintf(&sb, "def CompareToString_isStringsCompare : Bool := %v\n", isSC)
+	}
 	pf := parse(filepath.Join(*repo, "lang", "pack", "StatGeneralPack.go"))
 	fmt.Fprintf(&sb, "def create : List (Nat × String) := %s\n", createFacts(pf, consts))
 	sb.WriteString("\nend Gen.C13\n")
